@@ -186,6 +186,134 @@ fn check_codec_inner(case: &CodecCase) -> CaseResult {
         .label_if(partial, "partial_drain"))
 }
 
+/// A decoder fed a stream that becomes invalid at a chunk header: what it
+/// produced before the error stays reachable (`consumer()`, `take_iovec()`) and must
+/// stay alive, whatever happens to the arenas afterwards.
+#[derive(Clone, Debug, PartialEq, Eq, Hash, Serialize, Deserialize)]
+pub struct DecErrCase {
+    pub payload: bytespec::ByteSpec,
+    /// Which chunk header is overwritten (scaled over the headers of the encoding).
+    pub which_header: u8,
+    /// The byte written there (253..=255 are never valid in a header).
+    pub bad: u8,
+    pub dec: codec::Side,
+    /// Arena-read pieces come from a separate arena (dropped after the error) instead of the decoder's own.
+    pub foreign_arena: bool,
+    /// What happens after the error: 0 flush the decoder arena's cache, 1 take_iovec and flush,
+    /// 2 swap the arena for a fresh one and drop the old one, 3 nothing.
+    pub after: u8,
+}
+
+pub fn check_decoder_error(case: &DecErrCase) -> CaseResult {
+    with_quarantine(|| check_decoder_error_inner(case))
+}
+
+fn check_decoder_error_inner(case: &DecErrCase) -> CaseResult {
+    let plain = case.payload.bytes();
+    let mut stream = hcobs_ref::encode(&plain, LIMIT_FIRST, LIMIT_LATER);
+    let headers = codec::encoded_interesting(&stream);
+    if headers.is_empty() {
+        return Ok(Outcome::new(false));
+    }
+    let h = headers[(case.which_header as usize * headers.len()) >> 8];
+    stream[h] = case.bad;
+    // A few bytes after the bad header, so that the error may also be met in a later call.
+    stream.truncate((h + 1 + (case.bad as usize % 7)).min(stream.len()));
+    let lent = [range_of(&stream)];
+    let cuts = bytespec::resolve_cuts(&case.dec.cuts, stream.len(), &[h, h + 1]);
+    let pieces = bytespec::split_at_cuts(&stream, &cuts);
+    let mut foreign = ByteArena::new();
+    let mut decoder: Decoder<'_> = Decoder::new();
+    let mut failed = false;
+    let mut borrowed_from_arena = false;
+    for (i, piece) in pieces.iter().enumerate() {
+        let m = if case.dec.methods.is_empty() { &Method::Anchored } else { &case.dec.methods[i % case.dec.methods.len()] };
+        if !case.dec.nudges.is_empty() {
+            codec::apply_nudge(decoder.consumer().arena(), case.dec.nudges[i % case.dec.nudges.len()]);
+            if case.foreign_arena {
+                codec::apply_nudge(&mut foreign, case.dec.nudges[i % case.dec.nudges.len()]);
+            }
+        }
+        let r = match m {
+            Method::Borrow => decoder.decode(piece).map_err(|e| e.to_string()),
+            Method::Copy => decoder.decode_copy(piece).map_err(|e| e.to_string()),
+            Method::Anchored => {
+                let mut src = *piece;
+                let a = if case.foreign_arena {
+                    foreign.read_n(&mut src, piece.len(), NonZeroUsize::new(2).unwrap())
+                } else {
+                    decoder.read_n(&mut src, piece.len(), NonZeroUsize::new(2).unwrap())
+                }
+                .map_err(|e| Fail::new("read_n:error", e.to_string()))?;
+                borrowed_from_arena |= piece.len() > 64;
+                decoder.decode_anchored(a).map_err(|e| e.to_string())
+            }
+            Method::Read { .. } => {
+                let mut src = *piece;
+                borrowed_from_arena |= piece.len() > 64;
+                decoder.decode_read(&mut src, piece.len(), NonZeroUsize::new(2).unwrap()).map(|_| ()).map_err(|e| e.to_string())
+            }
+        };
+        // Whatever the verdict, what is visible is a prefix of the payload (the stream is intact before the bad header).
+        check_visible("decoder", &decoder.consumer(), &plain, 0, &lent)?;
+        if r.is_err() {
+            failed = true;
+            break;
+        }
+    }
+    // The caller lets go of everything it owns; the decoder's output must not depend on it.
+    drop(foreign);
+    let visible = match case.after % 4 {
+        0 => {
+            decoder.consumer().arena().flush_cache();
+            check_visible("decoder after the error and flush_cache", &decoder.consumer(), &plain, 0, &lent)?
+        }
+        1 => {
+            let mut out = decoder.take_iovec();
+            out.arena().flush_cache();
+            check_visible("iovec taken from the decoder after the error", &out.consumer(), &plain, 0, &lent)?
+        }
+        2 => {
+            let old = decoder.consumer().swap_arena(ByteArena::new());
+            drop(old);
+            check_visible("decoder after the error and an arena swap", &decoder.consumer(), &plain, 0, &lent)?
+        }
+        _ => check_visible("decoder after the error", &decoder.consumer(), &plain, 0, &lent)?,
+    };
+    Ok(Outcome::new(failed && visible > 0 && borrowed_from_arena)
+        .label_if(failed, "decoding_error_met")
+        .label_if(visible > 0, "output_visible_after_error")
+        .label_if(visible > 64, "output>64_bytes_after_error")
+        .label_if(case.foreign_arena, "foreign_arena")
+        .label_if(borrowed_from_arena, "arena_read_piece>64"))
+}
+
+fn decoder_error_case() -> impl Strategy<Value = DecErrCase> {
+    (
+        bytespec::hcobs_payload(false),
+        any::<u8>(),
+        prop_oneof![3 => Just(0xFFu8), 1 => Just(0xFEu8), 1 => Just(0xFDu8), 1 => 253u8..=255],
+        codec::side(6),
+        any::<bool>(),
+        0u8..4,
+        proptest::collection::vec(codec::nudge(), 0..4),
+    )
+        .prop_map(|(payload, which_header, bad, mut dec, foreign_arena, after, nudges)| {
+            // Arena-read input is the common case.
+            dec.methods.push(Method::Anchored);
+            dec.methods.push(Method::Read { script: vec![], attempts: 2 });
+            dec.nudges = nudges;
+            DecErrCase {
+                payload,
+                which_header,
+                bad,
+                dec,
+                foreign_arena,
+                after,
+            }
+        })
+}
+
 #[derive(Clone, Debug, PartialEq, Eq, Hash, Serialize, Deserialize)]
 pub struct StreamCase {
     pub stream: StreamSpec,
@@ -414,6 +542,8 @@ pub fn run(ctx: &Ctx, rep: &mut Report) {
     engine::drive(ctx, rep, "codec-anchored", anchored_codec_case(false), cases, check_codec);
     let cases = ctx.share(ctx.tier.pick(400, 50_000));
     engine::drive(ctx, rep, "codec-anchored-large", anchored_codec_case(true), cases, check_codec);
+    let cases = ctx.share(ctx.tier.pick(12_000, 300_000));
+    engine::drive(ctx, rep, "decoder-errors", decoder_error_case(), cases, check_decoder_error);
     let cases = ctx.share(ctx.tier.pick(20_000, 400_000));
     engine::drive(ctx, rep, "chunker-held-chunks", stream_case(8), cases, check_chunker);
     let cases = ctx.share(ctx.tier.pick(20_000, 400_000));
@@ -448,6 +578,7 @@ pub fn run(ctx: &Ctx, rep: &mut Report) {
 fn replay(_ctx: &Ctx, group: &str, case: &Value) -> CaseResult {
     match group {
         "codec-anchored" | "codec-anchored-large" => check_codec(&parse_case::<CodecCase>(case)?),
+        "decoder-errors" => check_decoder_error(&parse_case::<DecErrCase>(case)?),
         "chunker-held-chunks" | "chunker-held-chunks-large" => check_chunker(&parse_case::<StreamCase>(case)?),
         "reader-kept-records" | "reader-kept-records-long" | "reader-kept-records-large" | "reader-block-aligned-tails" => check_reader(&parse_case::<StreamCase>(case)?),
         _ => check_history(&parse_case::<History>(case)?),
@@ -457,7 +588,7 @@ fn replay(_ctx: &Ctx, group: &str, case: &Value) -> CaseResult {
 pub fn def() -> PropDef {
     PropDef {
         id: "C05",
-        rule: "All groups run single-threaded with the owning_iovec verif hook: a registry of live arena chunks, and quarantine (a released chunk's storage is poisoned with 0xFC and kept mapped until the case ends, so a stale slice can neither alias a newer chunk nor still hold its bytes). iovec-histories: C03's interpreter with a clone / take / drop / arena-swap / held-AnchoredSlice heavy mix (split_at, skip_prefix, drop_suffix, clone, take, drop, push into an iovec); after every operation every slice reachable through any live iovec's read side and every held AnchoredSlice must lie wholly inside the caller-owned pool or wholly inside one live chunk, never intersect a released chunk, hold the model's bytes; owned slices of one iovec and results of distinct read_n calls must be pairwise disjoint (except where the harness itself pushed two clones of one AnchoredSlice). codec-anchored: Encoder and Decoder fed mostly through read_n + encode_anchored / decode_anchored and drained partially after every call; every consumable slice is address- and content-checked against the reference output. chunker-held-chunks: every Data chunk of a StreamChunker run is held to the end and re-verified after every pump, after flush_cache and after dropping the arena, then released in a generated order. reader-kept-records: returned records are address- and content-checked and clones of records are kept across later next_record_bytes calls and after dropping the reader. The -large variants of the chunker and reader groups use a few records of up to 140000 bytes (sometimes 0.5..1.3 MB: more than an I/O block and than the arena's largest chunk). Non-trivial: a chunk was released during the case while other iovecs / anchors / held chunks were still alive, or an anchored push was partially consumed, or (streams) >= 3 chunks held / a record clone kept across >= 1 later record. Distinct: hash of the serialised case.",
+        rule: "All groups run single-threaded with the owning_iovec verif hook: a registry of live arena chunks, and quarantine (a released chunk's storage is poisoned with 0xFC and kept mapped until the case ends, so a stale slice can neither alias a newer chunk nor still hold its bytes). iovec-histories: C03's interpreter with a clone / take / drop / arena-swap / held-AnchoredSlice heavy mix (split_at, skip_prefix, drop_suffix, clone, take, drop, push into an iovec); after every operation every slice reachable through any live iovec's read side and every held AnchoredSlice must lie wholly inside the caller-owned pool or wholly inside one live chunk, never intersect a released chunk, hold the model's bytes; owned slices of one iovec and results of distinct read_n calls must be pairwise disjoint (except where the harness itself pushed two clones of one AnchoredSlice). codec-anchored: Encoder and Decoder fed mostly through read_n + encode_anchored / decode_anchored and drained partially after every call; every consumable slice is address- and content-checked against the reference output. decoder-errors: a Decoder is fed (all input methods; arena-read pieces from its own arena or from a separate one) a valid encoding whose k-th chunk header is overwritten with 253..255; after the error the separate arena is dropped and the decoder's arena is flushed / swapped for a fresh one / taken with take_iovec, and everything still reachable must be live and a prefix of the payload. chunker-held-chunks: every Data chunk of a StreamChunker run is held to the end and re-verified after every pump, after flush_cache and after dropping the arena, then released in a generated order. reader-kept-records: returned records are address- and content-checked and clones of records are kept across later next_record_bytes calls and after dropping the reader. The -large variants of the chunker and reader groups use a few records of up to 140000 bytes (sometimes 0.5..1.3 MB: more than an I/O block and than the arena's largest chunk). Non-trivial: a chunk was released during the case while other iovecs / anchors / held chunks were still alive, or an anchored push was partially consumed, or (streams) >= 3 chunks held / a record clone kept across >= 1 later record. Distinct: hash of the serialised case.",
         assumptions: &[
             "lifetime misuse that needs `unsafe` on the caller's side is out of scope (the harness pushes an anchor right after its slice, as Encoder::encode_anchored does)",
             "allocator address reuse is removed by quarantine rather than explored",
